@@ -177,9 +177,21 @@ def run(facts, R):
             # the Ok tuple carries that guard
             for ei, ej, es in ok_exits(C):
                 v = cs.rvalue(es["rv"])
-                gexpr = dict(dict(v[3])["0"][3]).get("0") if dict(v[3])["0"][0] == "agg" else None
-                okg = gexpr is not None and any(is_call(x, TF + "::create") for x in walk(gexpr))
-                R.check(okg, "commit-order", C.path, "Ok carries the guard it filled", "Ok(%s)" % render(v)[:160], es.get("span"))
+                payload = dict(v[3])["0"]
+                # the payload is a tuple or a small struct; exactly one of its fields is the guard made by TempFile::create here,
+                # and that is the field the caller commits
+                def _is_guard(x):
+                    for _ in range(4):
+                        if x[0] == "field" and x[2] == "0" and x[1][0] == "variant" and x[1][2] in ("Continue", "Ok") :
+                            x = x[1][1]
+                            if is_call(x, "branch") and x[2]:
+                                x = x[2][0]
+                        else:
+                            break
+                    return is_call(x, TF + "::create")
+                gfields = [k for k, x in payload[3] if _is_guard(x)] if payload[0] == "agg" else []
+                okg = len(gfields) == 1 and g[0] == "field" and g[2] == gfields[0]
+                R.check(okg, "commit-order", C.path, "Ok carries the guard it filled", "Ok(%s); the caller commits %s" % (render(v)[:160], render(g)[-60:]), es.get("span"))
             summaries[cdef] = synced_summary(facts, R, C)
             # commit control-dependent on the pull's Ok
             on_ok = ok_fact(fs, lambda e: any(is_call(x, VS + "pull_consume", VS + "pull_consume_async") for x in walk(e)))
